@@ -36,11 +36,11 @@ def run(chk):
     from .c15 import REFS as WEIGH_REFS
     src_, what_ = WEIGH_REFS["WeighRandomly"]
     check_equiv(chk, "C15.R1", "bt/algos.py", "WeighRandomly", "__call__", src_, "documented-weights", "WeighRandomly: %s" % what_, limit=16)
-    from .c20 import REFS as RISK_REFS
+    from .c20 import REFS as RISK_REFS, ALT_REFS as RISK_ALT
     for cls, name, src, what in RISK_REFS:
         if cls in ("ClosePositionsAfterDates", "RollPositionsAfterDates"):
             # well-formed nested trees complete: only the target's own security children are looked up in the date tables
-            check_equiv(chk, "C20.R3", "bt/algos.py", cls, name, src, "documented-behaviour", "%s.%s: %s" % (cls, name, what), limit=14)
+            check_equiv(chk, "C20.R3", "bt/algos.py", cls, name, src, "documented-behaviour", "%s.%s: %s" % (cls, name, what), limit=14, alt_refs=RISK_ALT.get((cls, name), ()))
         if (cls, name) == ("UpdateRisk", "_set_risk_recursive"):
             # finite numbers: a flat position has zero risk whatever its (possibly missing) unit risk is
             check_equiv(chk, "C20.R1", "bt/algos.py", cls, name, src, "documented-behaviour", "%s.%s: %s" % (cls, name, what), no_inline=("_set_risk_recursive",), limit=14)
